@@ -3,7 +3,7 @@
 -- a cross-check of the extraction and of ml/c01_main.ml's parsing."""
 import os, subprocess
 
-_PRELUDE = """From Oras Require Import Base.Prelude Generated.%(gen)s Model.CopySpec Model.CopyTop Model.CopyOpt.
+_PRELUDE = """From Oras Require Import Base.Prelude Generated.%(gen)s Model.CopySpec Model.CopyTop Model.CopyOpt%(imports)s.
 Local Open Scope nat_scope.
 Definition mkG (n : nat) (succs : list (list nat)) (fl ism : list bool) (dk : list nat) : graph :=
   mkGraph n (fun x => nth x succs []) (fun x => nth x fl false) (fun x => nth x ism false)
@@ -12,7 +12,7 @@ Definition cs_of (b : list bool) : cbset :=
   fun k => match k with CPre => nth 0 b true | CPost => nth 1 b true | CSkip => nth 2 b true
                       | CMounted => nth 3 b true | CMountFrom => nth 4 b true end.
 Definition eval (g : graph) (c : cfg) (cs : cbset) (d0 : list node) (tr : list event) (fuel : nat) :=
-  match run_opt cs g c (init c d0) tr with
+  match %(runfn)s cs g c (init c d0) tr with
   | None => None
   | Some (st, _) =>
       Some (returned st, tag st, present_nodes g (dst st),
@@ -275,7 +275,8 @@ def _goal(case, out):
     return "eval %s %s %s %s [%s] %d = %s" % (g, c, cs, _nats(d0), "; ".join(evs), int(n) + 1, exp)
 
 
-def vm_sample(gen):
+def vm_sample(gen, runfn="run_opt", imports=""):
+    # runfn / imports: the acceptor to re-evaluate (C04 replays on its overlay Model.CopyHold.run_opt_h)
     def hook(d, tier, coq, build):
         want = 300 if tier == "thorough" else 40
         outs = {}
@@ -302,7 +303,7 @@ def vm_sample(gen):
         os.makedirs(vdir, exist_ok=True)
         vf = os.path.join(vdir, gen + "_cases.v")
         with open(vf, "w") as f:
-            f.write(_PRELUDE % {"gen": gen})
+            f.write(_PRELUDE % {"gen": gen, "runfn": runfn, "imports": imports})
             for i, g in goals:
                 f.write("\n(* %s *)\nGoal %s.\nProof. vm_compute. reflexivity. Qed.\n" % (i, g))
         p = subprocess.run(["coqc", "-R", coq, "Oras", "-w", "-notation-overridden", vf], cwd=vdir, timeout=1500,
